@@ -8,6 +8,7 @@ the returned `position` is the input position and scales with s.  All real param
 real r and t (no sign or range restriction is needed: the map only has to cancel s).
 -/
 import EPV.Gen.Noh
+import EPV.Lemmas.Bridge.Noh
 import EPV.Gen.Cog19
 import EPV.Tactics
 
@@ -23,7 +24,7 @@ namespace EPV.C10
 /-- the shock test is invariant under (r, t) ↦ (s r, s t), s > 0 -/
 theorem noh_cond_similar (p : Noh.P) (r t s : ℝ) (hs : 0 < s) :
     Noh.c0 p (s * r) (s * t) ↔ Noh.c0 p r t := by
-  simp only [epv_cond]
+  rw [EPV.Bridge.noh_c0_iff, EPV.Bridge.noh_c0_iff]
   rw [show |p.u0| * (s * t) * (p.gamma - 1) / 2 = s * (|p.u0| * t * (p.gamma - 1) / 2) by ring]
   exact mul_lt_mul_iff_of_pos_left hs
 
